@@ -841,6 +841,72 @@ func runC11(p *core.Prog, r *core.Report) {
 		}
 	}
 
+	// ---- R3 (cont.): an insert into a per-length map never meets a nil map — either every element of the array is only
+	// ever assigned a fresh map (and the switch creates them all), or the function that inserts tests the map for nil
+	{
+		mapsKey := "field:IPv4Filter." + syms.ipMaps.Name()
+		var nonFresh []string
+		nStores := 0
+		for _, fn := range fi.AllFuncs {
+			sx.Instrs(fn, func(in ssa.Instruction) {
+				st, ok := in.(*ssa.Store)
+				if !ok {
+					return
+				}
+				ia, ok := st.Addr.(*ssa.IndexAddr)
+				if !ok {
+					return
+				}
+				isMaps := sx.Origins(ia.X)[mapsKey]
+				if fa, ok := ia.X.(*ssa.FieldAddr); ok && sx.FieldOf(fa) == syms.ipMaps {
+					isMaps = true
+				}
+				if !isMaps {
+					return
+				}
+				if _, isMap := st.Val.Type().Underlying().(*types.Map); !isMap {
+					return
+				}
+				nStores++
+				if _, isMake := sx.Unspill(st.Val).(*ssa.MakeMap); !isMake {
+					nonFresh = append(nonFresh, short(sx.ValPath(st.Val))+" at "+p.Pos(in.Pos()))
+				}
+			})
+		}
+		var bad []string
+		for _, fn := range fi.AllFuncs {
+			hasNilTest := false
+			sx.Instrs(fn, func(in ssa.Instruction) {
+				if b, ok := in.(*ssa.BinOp); ok && (b.Op == token.EQL || b.Op == token.NEQ) {
+					for _, pr := range [][2]ssa.Value{{b.X, b.Y}, {b.Y, b.X}} {
+						if !sx.IsNilConst(pr[1]) {
+							continue
+						}
+						if _, isElem := syms.mapIndex(pr[0]); isElem || sx.Origins(pr[0])[mapsKey] {
+							hasNilTest = true
+						}
+					}
+				}
+			})
+			sx.Instrs(fn, func(in ssa.Instruction) {
+				mu, ok := in.(*ssa.MapUpdate)
+				if !ok {
+					return
+				}
+				if _, isElem := syms.mapIndex(mu.Map); !isElem && !sx.Origins(mu.Map)[mapsKey] {
+					return
+				}
+				if _, isMake := sx.Unspill(mu.Map).(*ssa.MakeMap); isMake {
+					return
+				}
+				if len(nonFresh) > 0 && !hasNilTest {
+					bad = append(bad, "insert at "+p.Pos(in.Pos())+" in "+fnName(fn))
+				}
+			})
+		}
+		r.Check(len(bad) == 0, "C11-R3", "map inserts never meet a nil map", "-", fmt.Sprintf("%d assignment(s) of the per-length maps, all fresh maps (or the inserting function tests for nil)", nStores), "an element of the per-length map array can be "+strings.Join(uniq(nonFresh), ", ")+" but "+strings.Join(uniq(bad), ", ")+" assigns into it without a nil test: Add panics (assignment to entry in nil map) while holding the write lock")
+	}
+
 	// ---- R6: slot copy re-examination in Remove
 	{
 		found := 0
